@@ -128,16 +128,29 @@ def run(ctx):
     # triangles: located parameters of points obtained at dyadic parameters of lattice triangles
     rng = ctx.rng
     tri = []
-    for _ in range(30 if ctx.quick() else 600):
+    for _ in range(60 if ctx.quick() else 1200):
         d = rng.randint(1, 3)
+        fam = rng.choice(["lattice", "lattice", "graph-x", "graph-y"])
         xs, ys = [], []
         for k in range(d + 1):
             for j in range(d + 1 - k):
-                xs.append(F(j) + F(rng.randint(-1, 1), 8)); ys.append(F(k) + F(rng.randint(-1, 1), 8))
-        s = F(rng.randint(0, 8), 8); t = F(rng.randint(0, 8 - int(s * 8)), 8)
+                # lattice: perturbed lattice net; graph-*: one coordinate is exactly the parameter (x = s or y = t)
+                xs.append(F(j, d) if fam == "graph-x" else F(j) + F(rng.randint(-1, 1), 8))
+                ys.append(F(k, d) if fam == "graph-y" else F(k) + F(rng.randint(-1, 1), 8))
+        xs, ys = [F(float(v)) for v in xs], [F(float(v)) for v in ys]
+        # parameters: dyadic break points of the bisection (k/8) and generic values (30 bits) mixed
+        gen = lambda: F(rng.randint(1, 2 ** 30 - 1), 2 ** 30)
+        pk = rng.choice(["dyadic", "dyadic", "s-dyadic", "t-dyadic", "generic"])
+        s = F(rng.randint(0, 8), 8) if pk in ("dyadic", "s-dyadic") else gen() / 2
+        t = F(rng.randint(0, 8 - int(s * 8)), 8) if pk in ("dyadic", "t-dyadic") else gen() * (1 - s) * F(7, 8)
+        if s + t > 1 or (pk != "dyadic" and (s + t > F(15, 16))):
+            continue
         px, py = oq.tri_bernstein(xs, d, 1 - s - t, s, t), oq.tri_bernstein(ys, d, 1 - s - t, s, t)
-        if all(F(float(x)) == x for x in (px, py)):
-            tri.append({"d": d, "rows": [xs, ys], "st": (s, t), "p": (px, py)})
+        exact = all(F(float(x)) == x for x in (px, py))
+        if pk == "dyadic" and not exact:
+            continue
+        # generic parameters: the point is rounded to binary64 (perturbs the parameters by about 2^-50 on these well conditioned nets)
+        tri.append({"d": d, "rows": [xs, ys], "st": (s, t), "p": (F(float(px)), F(float(py))), "family": fam, "params": pk})
 
     def judge_tri(c, op, cfg, raw):
         if "exc" in raw:
@@ -146,7 +159,7 @@ def run(ctx):
         if v is None:
             return "a point of the triangle was not located"
         s, t = v
-        if abs(s - c["st"][0]) > F(1, 2 ** 20) or abs(t - c["st"][1]) > F(1, 2 ** 20):
+        if abs(s - c["st"][0]) > F(1, 2 ** 40) or abs(t - c["st"][1]) > F(1, 2 ** 40):
             return "located (%r, %r), true parameters %s" % (float(s), float(t), tuple(map(float, c["st"])))
         if s < 0 or t < 0 or s + t > 1:
             return "OUTSIDE: located parameters (%r, %r) are outside the reference triangle" % (float(s), float(t))
